@@ -45,6 +45,11 @@ func keyHash(userKey []byte) uint32 {
 var plainKeys = [][]byte{[]byte("na"), []byte("nb"), []byte("nc"), []byte("nd"), {'n', 0x00}, {'n', 0xff}, []byte("nab")}
 var verKeys = [][]byte{[]byte("va"), []byte("vb"), {'v', 0x00}}
 
+// ghost keys are never written through the client API: only interrupted writes (crash ops) carry them,
+// so the LSM holds nothing for them and rewrite's lsm.Get misses
+var ghostPlain = [][]byte{[]byte("ng"), {'n', 'g', 0x00}}
+var ghostVer = [][]byte{[]byte("vg")}
+
 type engine struct {
 	dir     string
 	db      *NoKV.DB
@@ -60,9 +65,9 @@ type engine struct {
 
 func (e *engine) Rule() string {
 	if *prop == "C11" {
-		return "C11: C08 op mix plus crash ops (a value-log record appended by valueLog.write only, then close+open) and crash-image checks (copy of the directory, reopened, GC of every sealed file twice, full dumps compared); non-trivial = at least one crash op left an unreferenced record that a later GC scanned, or an image check ran after >=1 rotation"
+		return "C11: C08 op mix with more crash ops (a value-log record appended by valueLog.write only, then close+open) and crash-image checks (copy of the directory, reopened, GC of every sealed file twice, full dumps compared); non-trivial = at least one crash op left an unreferenced record that a later GC scanned, or an image check ran after >=1 rotation"
 	}
-	return "C08: random set/del/setv/delv/get/getv/scan/gc/reopen sequences on the real DB (ValueThreshold T in {16,32,64}, value sizes {0,1,T-1,T,T+1,4T}, file size 200..700 => 2-8 rotations, 1/2/4 buckets), pointers, file lists, records and manifest status compared with the model after every step; non-trivial = some GC run re-inserted >=1 live record and scanned >=1 dead record"
+	return "C08: random set/del/setv/delv/get/getv/scan/gc/reopen sequences, plus interrupted writes (valueLog.write only, then close+open; on written keys and on ghost keys the LSM never holds), on the real DB (ValueThreshold T in {16,32,64}, value sizes {0,1,T-1,T,T+1,4T}, file size 200..700 => 2-8 rotations, 1/2/4 buckets), pointers, file lists, records and manifest status compared with the model after every step; non-trivial = some GC run re-inserted >=1 live record and scanned >=1 dead record"
 }
 
 func (e *engine) opts() *NoKV.Options {
@@ -158,7 +163,11 @@ func (e *engine) Gen(r *hlib.Rand, tier string) []string {
 		}
 		return fmt.Sprintf("gc %d %d", b, f)
 	}
-	crashes := *prop == "C11"
+	crashes := true // interrupted writes belong to C08's "never brings back" as much as to C11
+	crashPct := 75
+	if *prop != "C11" {
+		crashPct = 45
+	}
 	// every reopen replays the WAL into fresh 64 MiB memtables: keep their number per case small
 	reopens := 1 + r.Intn(2)
 	if tier == "thorough" {
@@ -208,13 +217,19 @@ func (e *engine) Gen(r *hlib.Rand, tier string) []string {
 		case x < 84:
 			if reopens > 0 {
 				reopens--
-				if crashes && r.Chance(75) {
+				if crashes && r.Chance(crashPct) {
 					var k []byte
 					ver := maxVer
-					if r.Chance(70) {
+					switch y := r.Intn(100); {
+					case y < 40:
 						k = hlib.Pick(r, plainKeys)
-					} else {
+					case y < 65:
+						k = hlib.Pick(r, ghostPlain)
+					case y < 85:
 						k = hlib.Pick(r, verKeys)
+						ver = uint64(1 + r.Intn(6))
+					default:
+						k = hlib.Pick(r, ghostVer)
 						ver = uint64(1 + r.Intn(6))
 					}
 					v := bigVal(r, T)
@@ -237,7 +252,7 @@ func (e *engine) Gen(r *hlib.Rand, tier string) []string {
 		case x < 96:
 			ops = append(ops, fmt.Sprintf("man %d", r.Intn(B)))
 		default:
-			if crashes && images > 0 && r.Chance(40) {
+			if *prop == "C11" && images > 0 && r.Chance(40) {
 				images--
 				ops = append(ops, "image")
 			} else {
@@ -254,6 +269,12 @@ func (e *engine) Gen(r *hlib.Rand, tier string) []string {
 		for _, k := range verKeys {
 			ops = append(ops, fmt.Sprintf("getv %s 7", hlib.Hex(k)))
 		}
+		for _, k := range ghostPlain {
+			ops = append(ops, "get "+hlib.Hex(k))
+		}
+		for _, k := range ghostVer {
+			ops = append(ops, fmt.Sprintf("getv %s 7", hlib.Hex(k)))
+		}
 	}
 	tail()
 	if r.Chance(70) {
@@ -266,7 +287,7 @@ func (e *engine) Gen(r *hlib.Rand, tier string) []string {
 		}
 		tail()
 	}
-	if crashes && images > 0 && r.Chance(50) {
+	if *prop == "C11" && images > 0 && r.Chance(50) {
 		ops = append(ops, "image")
 	}
 	ops = append(ops, "reopen")
